@@ -1,6 +1,7 @@
 SPECIFICATION Spec
 CONSTANTS KnownDevs = {}
 INVARIANTS
+  InEnvelope
   C10_StopCompletesWithoutPanic
   C10_StopInBoundedTime
   C10_EachSessionRemovedExactlyOnce
@@ -9,7 +10,6 @@ INVARIANTS
   C02_FseidAddressesSession
   C03_TablesAreImage
   C05_NoDatapathResidue
-  InEnvelope
 POSTCONDITION TraceAccepted
 ALIAS Alias
 CHECK_DEADLOCK FALSE
